@@ -4,6 +4,7 @@ use core::mem;
 use dashu_base::{ExtendedGcd, Gcd};
 
 use crate::{
+    add,
     arch::word::{DoubleWord, SignedDoubleWord, SignedWord, Word},
     cmp::cmp_in_place,
     div,
@@ -408,11 +409,17 @@ pub fn gcd_ext_in_place(
                     &t1[..t1_len],
                 );
             }
+            // t0 can be longer than q*t1 (after Lehmer steps t0 is not necessarily the smaller
+            // coefficient, and the quotient can be as small as one): keep its upper words
+            let t_len = qt1_len.max(t0_len);
+            if t_carry > 0 && qt1_len < t_len {
+                t_carry = add::add_word_in_place(&mut t0[qt1_len..t_len], t_carry) as Word;
+            }
             if t_carry > 0 {
-                t0[qt1_len] = t_carry;
-                t0_len = qt1_len + 1;
+                t0[t_len] = t_carry;
+                t0_len = t_len + 1;
             } else {
-                t0_len = locate_top_word_plus_one(&t0[..qt1_len]);
+                t0_len = locate_top_word_plus_one(&t0[..t_len]);
             }
 
             // swap: (x, y) = (y, r)
